@@ -36,7 +36,7 @@ type langState struct {
 	bools map[types.Object]bool
 	signs map[types.Object]string // float/int variables: "", "ge0", "lt0"
 	out   *DFA
-	done bool // the path has returned
+	done  bool // the path has returned
 }
 
 func (s *langState) clone() *langState {
